@@ -287,6 +287,14 @@ fn emit_expression_ctx(
             } else if let Some(path) = context.and_then(|ctx| ctx.qualified_choice_labels.get(name))
             {
                 out.push(json!({"CNT?": path}))
+            } else if name.contains('.')
+                && let Some((qualified_name, value)) =
+                    context.and_then(|ctx| ctx.resolve_list_item(name))
+            {
+                // `list.item` is a list value, not the read count of a container
+                let mut list_map = serde_json::Map::new();
+                list_map.insert(qualified_name, json!(value));
+                out.push(json!({"list": list_map}))
             } else if name.contains('.') {
                 out.push(json!({"CNT?": name}))
             } else if let (Some(s), Some(ctx)) = (scope, context)
